@@ -1,7 +1,7 @@
 """C20 — source includes: MechInclude (stack machine + declarative characterisation, checked against each other by TLC)
 enumerates file systems; each is materialised as a directory tree and loaded through mech::read_mech_source_file;
 the H2 hook events (enter / exit / cycle) are validated against the stack discipline."""
-import os, random, collections, json
+import os, re, random, collections, json, threading
 import tlc, execpool
 from core import log, OUT
 
@@ -68,6 +68,64 @@ def check_events(events, status):
     if status == "ok" and stack: return f"expansion succeeded with files still active: {stack}"
     return None
 
+# ---------------------------------------------------------------- impl -> spec: TLC validates the H2 events against the stack machine
+RPATH = {v: k for k, v in PATH.items()}
+_msg_re = re.compile(r'^<<"MSG", "(.*)">>')
+def trace_run(cs, resp):
+    """ndjson records of one load: the abstract file system, the hook events, the verdict"""
+    evs = [{"ev": "Fs", "root": "a", "fs": cs["fs"]}]
+    for k, pth in resp.get("events", []):
+        evs.append({"ev": k.capitalize(), "f": RPATH.get(pth, pth)})
+    if resp["r"] == "ok": r = "ok"
+    else:
+        msg = resp.get("msg", "")
+        r = "cycle" if "Circular include" in msg else ("missing" if "Include failed" in msg else "other")
+    evs.append({"ev": "End", "r": r})
+    return evs
+
+def validate_traces(runs, tag, nproc=8):
+    """runs: list of (events, meta).  TLC (Trace_C20) must accept every run; returns (events accepted, [(meta, message)])"""
+    if not runs: return 0, []
+    chunks = [c for c in (runs[i::nproc] for i in range(nproc)) if c]
+    results = [None] * len(chunks); errs = []
+    def work(ci):
+        try:
+            chunk = chunks[ci]; path = os.path.join(OUT, f"trace_C20_{tag}_{ci}.ndjson")
+            done = 0; rej = []; start = 0
+            while start < len(chunk):
+                index = []
+                with open(path, "w") as fh:
+                    for ri in range(start, len(chunk)):
+                        for e in chunk[ri][0]:
+                            fh.write(json.dumps(e, ensure_ascii=True) + "\n"); index.append(ri)
+                logp = os.path.join(OUT, f"tlc_Trace_C20_{tag}_{ci}.log")
+                accepted = False; msg = None
+                try:
+                    t = tlc.run("Trace_C20", "Trace_C20.cfg", workers=1, env={"TRACE": path}, deque=True, xss="1g", xmx="2g", timeout=1500, tag=f"Trace_C20_{tag}_{ci}")
+                    accepted = t.ok and not t.errors and not t.msgs
+                except tlc.TlcError as e:
+                    if "timeout" in str(e): raise
+                if accepted:
+                    done += len(index); break
+                for line in open(logp, errors="replace"):
+                    m = _msg_re.match(line.rstrip("\n"))
+                    if m: msg = json.loads(tlc._unescape(m.group(1)))
+                if msg is None:
+                    raise tlc.TlcError(f"Trace_C20 gave no verdict, see {logp}: " + open(logp, errors="replace").read()[-1500:])
+                ri = index[msg["unmatched"] - 1]
+                first = index.index(ri)
+                done += first - (index.index(index[0]) if False else 0)
+                rej.append((chunk[ri][1], f"event {msg['unmatched'] - first} of the load is not a step of the stack machine: {json.dumps(msg['ev'])[:200]}"))
+                start = ri + 1
+                if len(rej) > 25: break
+            results[ci] = (done, rej)
+        except Exception as ex: errs.append(ex)
+    ths = [threading.Thread(target=work, args=(i,)) for i in range(len(chunks))]
+    for th in ths: th.start()
+    for th in ths: th.join()
+    if errs or any(r is None for r in results): raise tlc.TlcError(f"Trace_C20: a validation process failed: {errs[:1]}")
+    return sum(r[0] for r in results), [x for r in results for x in r[1]]
+
 def run(rep, tier, seed):
     # liveness on the model: under weak fairness of the loader's steps every behaviour reaches a verdict ("loading always terminates")
     tl = tlc.run("MC_C20", "MC_C20_live.cfg", workers=8, timeout=1500, tag="MC_C20_live", collect=())
@@ -104,7 +162,7 @@ def run(rep, tier, seed):
         reqs.append({"id": n, "mode": "include", "files": files, "root": PATH["a"]})
         meta.append((cs, linetext))
     outs = execpool.run_requests(reqs, nworkers=16, timeout=30, env={"MECHVERIF_TMP": tmp})
-    tally = collections.Counter(); nevents = 0
+    tally = collections.Counter(); nevents = 0; truns = []
     for req, (resp, oc), (cs, linetext) in zip(reqs, outs, meta):
         status = cs["status"]
         shape = "+".join(sorted({l["k"] for ls in cs["fs"].values() for l in ls}))
@@ -113,6 +171,8 @@ def run(rep, tier, seed):
             rep.fail(f"C20/host-{oc}", f"loading {req['files']} -> process {oc} (loading must terminate)", replay); continue
         ev = resp.get("events", [])
         nevents += len(ev)
+        if resp["r"] in ("ok", "err") and not any("{a} {b.mec}" in v for v in req["files"].values()):
+            truns.append((trace_run(cs, resp), replay))
         bad = check_events(ev, resp["r"])
         if bad:
             rep.fail("C20/stack-discipline", f"{req['files']}: {bad}", replay); continue
@@ -146,8 +206,23 @@ def run(rep, tier, seed):
         if (status == "cycle") != is_cycle:
             tally["other_allowed_error"] += 1
         tally["error_ok"] += 1
+    # impl -> spec: every load's hook events must be a behaviour of MechIncludeMachine on that file system (Trace_C20)
+    if tier == "quick" and len(truns) > 6000: truns = random.Random(seed).sample(truns, 6000)
+    nacc, rejected = validate_traces(truns, tier)
+    for meta_r, why in rejected:
+        rep.fail("C20/trace/not-a-behaviour-of-the-stack-machine", f"{meta_r['files']}: {why}", meta_r)
+    # negative control: a run whose second Enter names another file must be rejected
+    ctl = next((evs for evs, _ in truns if sum(1 for e in evs if e["ev"] == "Enter") >= 2 and evs[-1]["r"] == "ok"), None)
+    if ctl is not None:
+        bad = [dict(e) for e in ctl]; k = [i for i, e in enumerate(bad) if e["ev"] == "Enter"][1]
+        bad[k]["f"] = "a"
+        _, rj = validate_traces([(bad, {"files": "negative control"})], tier + "_neg", nproc=1)
+        if not rj: raise tlc.TlcError("Trace_C20 accepted a corrupted trace (negative control)")
+        rep.cov["negative_controls_passed"] = 1
+    log(f"[C20] Trace_C20: {len(truns)} loads, {nacc} records accepted by TLC, {len(rejected)} rejected")
+    rep.cov.update({"trace_loads_validated": len(truns) - len(rejected), "trace_records_accepted": nacc})
     rep.cov.update({"states": t.generated, "transitions": max(t.generated - 1, 1), "distinct_states": t.distinct,
-                    "traces_validated_against_impl": len(reqs), "file_systems": len(cases), "expanded_text_matched": tally["text_ok"],
+                    "traces_validated_against_impl": len(reqs) + len(truns) - len(rejected), "file_systems": len(cases), "expanded_text_matched": tally["text_ok"],
                     "errors_matched": tally["error_ok"], "hook_events_validated": nevents, "exhaustive": tier == "quick",
                     "rule": "every file system of the bounded MechInclude instance (3 files quick: include edges incl. self loops, repeats, diamonds, cycles, missing targets, fenced and unclosed-fence includes, other brace lines; 4 files in 3 directories with trailing-newline choices sampled by TLC simulation in thorough); text or error class compared, H2 enter/exit/cycle events checked for the stack discipline"})
     rep.add_samples([{"files": r["files"], "status": m[0]["status"]} for r, m in zip(reqs, meta)])
